@@ -513,7 +513,7 @@ PROPS = {
     'C05': alg(simple_jobs('inv', 320), mc=lambda tier: gf2_mc(tier) + [mcjob('MC_Solve', workers=12)]),
     'C06': alg(simple_jobs('solve', 480), mc=lambda tier: gf2_mc(tier) + [mcjob('MC_Solve', workers=12), mcjob('MC_Solve', 'MC_Solve_wit_f03', workers=4, witness=True)]),
     'C07': alg(simple_jobs('kernel', 320), mc=lambda tier: gf2_mc(tier) + [mcjob('MC_Solve', workers=12)]),
-    'C08': alg(simple_jobs('move', 1600), mc=lambda tier: words_mc('MC_MzdWords_c08_w3')(tier) + [mcjob('MC_Butterfly', 'MC_Butterfly_w%d' % w, workers=4) for w in (2, 4, 8, 16)] + [mcjob('MC_TransposeTiling', 'MC_TransposeTiling_quick' if tier == 'quick' else c, workers=8, timeout=1800) for c in (('MC_TransposeTiling',) if tier == 'quick' else ('MC_TransposeTiling', 'MC_TransposeTiling_bs3'))]),
+    'C08': alg(simple_jobs('move', 1600), mc=lambda tier: words_mc('MC_MzdWords_c08_w3')(tier) + [mcjob('MC_Butterfly', 'MC_Butterfly_w%d' % w, workers=4) for w in (2, 4, 8, 16)] + [mcjob('MC_MzdWords2', 'MC_MzdWords2_c08', workers=12, timeout=1800)] + [mcjob('MC_TransposeTiling', 'MC_TransposeTiling_quick' if tier == 'quick' else c, workers=8, timeout=1800) for c in (('MC_TransposeTiling',) if tier == 'quick' else ('MC_TransposeTiling', 'MC_TransposeTiling_bs3'))]),
     'C13': alg(simple_jobs('rowops', 1200), mc=lambda tier: words_mc('MC_MzdWords_c13_w3', 'MC_MzdWords_perm')(tier) + words2_mc(tier, ('cswap',))),
     'C17': alg(obs_jobs, mc=words_mc('MC_MzdWords_c17_w2')),
     'C01': dict(level='model_checking', reasons=ALG_REASONS, jobs=c01_jobs,
